@@ -52,6 +52,8 @@ type Monitor struct {
 	w *World
 	Model
 	anyFailure bool                // some user function returned an error or panicked earlier in this history
+	// swallowedOps: ops in which an optional parameter got the zero value although a provider is registered
+	swallowedOps map[int]bool
 	role       map[int]interface{} // fn id -> *Reg | *Dec
 	okExecs    map[int]int
 	viol       []Violation
@@ -268,7 +270,15 @@ func (m *Monitor) inReach(d *Dec, fid int) bool {
 func (m *Monitor) checkArg(f *Fn, n node, kind string, i int, p Param, got []*Tok) {
 	for _, t := range got {
 		if t != nil && t.Tainted {
-			m.violate("C07,C01", "C07.tainted", "f%d param %v received %v, minted by a failed execution", f.ID, p, t)
+			props := "C07,C01"
+			if p.K.Group != "" {
+				if p.Soft {
+					props += ",C11" // a soft group holds only members of constructors that were (successfully) executed
+				} else {
+					props += ",C10"
+				}
+			}
+			m.violate(props, "C07.tainted", "f%d param %v received %v, minted by a failed execution", f.ID, p, t)
 		}
 	}
 	S := n.s
@@ -408,6 +418,10 @@ func (m *Monitor) checkArg(f *Fn, n node, kind string, i int, p Param, got []*To
 			m.violate("C04,C01,C08", "C04.optional-zero-but-avail", "f%d optional param %v is zero although provider f%d is available", f.ID, p, r.F.ID)
 		}
 		m.stats["arg.optzero.unavail"]++
+		if m.swallowedOps == nil {
+			m.swallowedOps = map[int]bool{}
+		}
+		m.swallowedOps[m.w.curOp] = true // a dependency failure behind an optional edge was swallowed in this op
 		m.situ[sit+"single-optional-zero-unavail"]++
 		return
 	}
